@@ -421,7 +421,7 @@ _EXTRA_FLOORS = {
     "C04": {"identity-twin-templates": 24},
     "C05": {"probes-after-unrelated-work": 450},
     "C06": {"closure-creation-templates": 14},
-    "C07": {"order-family-cases": 5000},
+    "C07": {"order-family-cases": 5000, "scale-cases": 450},
     "C08": {"form_same_operand": 1000, "form_comparison_compound": 100000},
     "C09": {"chain_first_steps": 550, "nested_bound_cases": 650},
     "C10": {"law:wide-union": 180},
